@@ -3,10 +3,12 @@
    (total weight; every fixed child holds the aggregate of exactly the sub-stream routed to it) for
    every arithmetic instance; the closed forms of Count, Sum, Average and Deviate on finite data with
    positive weights (sum of weights, weighted sum, weighted mean, weighted sum of squared deviations)
-   at the exact instance.  Extrema, the value map of Bag and the sparse children are evaluated by the
-   independent exact-rational reference semantics harness/refsem.py on every exact program, not proved. *)
+   at the exact instance; the extrema of Minimize / Maximize ignoring NaN over any quantities
+   (finite, +-inf, NaN) and the value -> weight map of a Bag of numbers (NaN under "nan").  The same
+   quantities are also evaluated by the independent exact-rational reference semantics
+   harness/refsem.py on every exact program (Bags of strings and vectors only there). *)
 From Coq Require Import List Permutation Bool QArith Qcanon.
-From Hgm Require Import NumOps Xq Agg Ops XqFacts LeafAlg Algebra Stream Denote LeafDenote.
+From Hgm Require Import NumOps Xq Agg Ops XqFacts SL LeafAlg Algebra Stream Denote LeafDenote.
 Import ListNotations.
 
 (* the result does not depend on the order in which data are filled *)
@@ -53,6 +55,18 @@ Theorem C02_children : forall (N : num_ops) k q (s : list (datum N * T N)) e fx 
       nth_error fx' i = Some (fills c (sub_stream k q (List.length fx) i s)).
 Proof. intros N k q s. apply fills_children. Qed.
 
+(* ... and the sparse child under every key (bin index of a SparselyBin, category of a Categorize)
+   is what it was - or the empty template, created when the first such row arrives - filled with
+   exactly the rows routed to that key *)
+Theorem C02_sparse_children : forall (N : num_ops) k q (s : list (datum N * T N)) e fx sp tm ct,
+  SL.sorted key_cmp sp -> all_done (Node k q e fx sp tm ct) s ->
+  exists e' fx' sp',
+    fills (Node k q e fx sp tm ct) s = Node k q e' fx' sp' tm ct /\
+    List.length fx' = List.length fx /\ SL.sorted key_cmp sp' /\
+    forall kk, sl_lookup key_cmp kk sp' =
+               grown tm (sl_lookup key_cmp kk sp) (sub_key k q (List.length fx) kk s).
+Proof. intros N k q s. apply fills_sparse. Qed.
+
 (* leaves, finite data (q, w) with w > 0, filled into the empty leaf: sw = sum of w,
    swq = sum of w*q, swqq = sum of w*q*q *)
 Theorem C02_count : forall (rs : rows) s, le (lfills (LCount TId) s rs) = xadd (le s) (XF (sw rs)).
@@ -76,8 +90,42 @@ Theorem C02_deviate : forall rs : rows, pos_rows rs -> rs <> [] ->
               (sw rs * m = swq rs)%Qc /\ (v + sw rs * m * m = swqq rs)%Qc.
 Proof. exact deviate_denote. Qed.
 
+(* any quantities (finite, +-inf, NaN), weights > 0: Minimize holds a value that is not above any
+   non-NaN quantity filled (and is itself not NaN as soon as one was filled), and that is one of the
+   quantities filled unless it is still NaN (nothing but NaN was filled) *)
+Theorem C02_minimize : forall rs : xrows,
+  let m := l1 (lfillsx LMin (leaf_zero LMin) rs) in
+  (forall q, In q (map fst rs) -> xisnan q = false -> xisnan m = false /\ xltb q m = false) /\
+  (xisnan m = false -> In m (map fst rs)).
+Proof. exact min_denote. Qed.
+
+Theorem C02_maximize : forall rs : xrows,
+  let m := l1 (lfillsx LMax (leaf_zero LMax) rs) in
+  (forall q, In q (map fst rs) -> xisnan q = false -> xisnan m = false /\ xltb m q = false) /\
+  (xisnan m = false -> In m (map fst rs)).
+Proof. exact max_denote. Qed.
+
+(* Bag of numbers filled from empty: under every key the sum of the weights of the rows with that
+   value (NaN quantities under the key "nan"), no entry for a value never filled *)
+Theorem C02_bag : forall (rs : xrows) k,
+  sl_lookup (@bag_cmp Xq) k (lv (lfillsx (LBag RN) (leaf_zero (LBag RN)) rs)) =
+  if existsb (fun qw => key_is k (fst qw)) rs then Some (XF (wkey k rs)) else None.
+Proof. exact bag_denote. Qed.
+
+Example C02_extrema_bag_ex :
+  let three := XF (Q2Qc 3) in
+  let rs := [(XNaN, Q2Qc 1); (three, Q2Qc 2); (XNInf, Q2Qc 1); (three, Q2Qc 1); (XPInf, Q2Qc 1)] in
+  l1 (lfillsx LMin (leaf_zero LMin) rs) = XNInf /\ l1 (lfillsx LMax (leaf_zero LMax) rs) = XPInf /\
+  sl_lookup (@bag_cmp Xq) (@BNum Xq three) (lv (lfillsx (LBag RN) (leaf_zero (LBag RN)) rs)) = Some three /\
+  sl_lookup (@bag_cmp Xq) (@BNan Xq) (lv (lfillsx (LBag RN) (leaf_zero (LBag RN)) rs)) = Some (XF (Q2Qc 1)).
+Proof. vm_compute. repeat split; reflexivity. Qed.
+
 Print Assumptions C02_order_independent.
+Print Assumptions C02_minimize.
+Print Assumptions C02_maximize.
+Print Assumptions C02_bag.
 Print Assumptions C02_children.
+Print Assumptions C02_sparse_children.
 Print Assumptions C02_count.
 Print Assumptions C02_sum.
 Print Assumptions C02_average.
